@@ -1368,11 +1368,26 @@ func c12RandomCase(ctx *core.Ctx, d interface {
 	}
 	for i, a := range ans {
 		parts := strings.Split(a, " | ")
-		if len(parts) != 4 || parts[0] != "ok 1" {
-			ctx.Fail("L2", "lean-rejects-case", "the Lean model does not accept the case: "+a, detail(map[string]any{"row": valTexts[i]}))
+		if len(parts) != 4 || !strings.HasPrefix(parts[0], "ok 1 ") || !strings.HasSuffix(parts[0], " 1") {
+			ctx.Fail("L2", "lean-rejects-case", "the Lean model does not accept the case (value must conform, schema must be well formed): "+a, detail(map[string]any{"row": valTexts[i]}))
 			continue
 		}
 		mirror, spec, projLean := parts[1], parts[2], parts[3]
+		if i == 0 {
+			// which theorem covers this schema pair
+			switch flags := strings.Fields(parts[0]); {
+			case flags[2] == "1":
+				ctx.Hist("theorem-coverage", "convert_shred (delete/permute/widen)")
+			case flags[3] == "1":
+				ctx.Hist("theorem-coverage", "convert_shred_added_partial (added fields, addOk)")
+			default:
+				ctx.Hist("theorem-coverage", "none ("+tg.mode+")")
+			}
+		}
+		if fl := strings.Fields(parts[0]); fl[2] == "1" && mirror != spec {
+			ctx.Fail("L2", "lean-theorem-hypotheses-hold-but-mirror-differs-from-spec", "subN holds yet convertRow differs from shred tgt (project v) in the compiled model",
+				detail(map[string]any{"row": valTexts[i], "lean": a}))
+		}
 		// spec side of the model vs the harness reference (projection, shredder)
 		pv := c12ProjectBody(src, tgt, vals[i])
 		if want := idText(c12ShredRow(tgt, pv)); want != spec || projTexts[i] != projLean {
